@@ -43,8 +43,14 @@ def run(ck):
         ck.sample({"replayed": rp["text"]})
         return ck.finish()
     n = lc.gen_specs(ck, {"K": 3, "MaxSize": 4 if quick else 5, "ShareSize": 1 if quick else 2}, drop=())
-    ck.run_sharded("parse-trace", "tla/gen_specs.ndjson", "tla/ptraces.ndjson", extra=["-inject", "8" if quick else "60"], timeout=1800)
+    ck.run_sharded("parse-trace", "tla/gen_specs.ndjson", "tla/ptraces.ndjson", extra=["-inject", "8" if quick else "30"], timeout=1800)
     traces = vp.read_ndjson(os.path.join(ck.work, "tla", "ptraces.ndjson"))
+    cap = 30000
+    if len(traces) > cap:       # TLC validates about 25 traces a second and core; keep the thorough tier within half an hour
+        import random
+        traces = random.Random(ck.seed).sample(traces, cap)
+        vp.write_ndjson(os.path.join(ck.work, "tla", "ptraces.ndjson"), traces)
+        ck.assumptions.append("a seeded sample of %d of the recorded traces is validated" % cap)
     ninj = sum(1 for t in traces if t["failat"] >= 0)
     ck.log("%d specifications, %d traces (%d with an injected callback failure)" % (n, len(traces), ninj))
     if ck.args.selftest:
